@@ -131,7 +131,7 @@ def run(ctx):
                         (idv is not None and vf is not None and idv == vf, "on_execute is given id %s but the lookup used %s" % (term_str(idt), term_str(key))),
                         (st is not None and T.contains(st, lambda x: x[0] == "call" and x[1].endswith("::get_mut") and x[3] == ("site", lk[2])) if st is not None else False,
                          "the parameter parser's statement state is not the looked-up entry: %s" % term_str(part)),
-                        (st is not None and st[0] == "okpayload", "the looked-up entry is used without taking the success arm of the lookup"),
+                        (st is not None and st[0] in ("okpayload", "somepayload"), "the looked-up entry is used without taking the success arm of the lookup"),
                         (pbytes is not None and pbytes[0] == "Execute" and pbytes[2] == (vf[2] if vf else None), "parameter bytes are not the Execute command's payload"),
                     ]
                     ok = all(c for c, _ in cond)
@@ -154,6 +154,17 @@ def run(ctx):
             # the error being returned is the residual of `?` applied directly to the (adapted) lookup result
             failed_lookup = T.find(rv, lambda x: x[0] == "errresidual" and T.is_call(
                 T.peel(x[1], extra_rx=r"::(ok_or_else|ok_or|map_err)$", payloads=False), r"::get_mut$"))
+            if failed_lookup is None:
+                # the explicit form: `match stmts.get_mut(&id) { Some(s) => s, None => return Err(..) }`
+                for i, blk in enumerate(p.blocks[:-1]):
+                    tt = fr.term(blk)
+                    if tt["k"] != "switch":
+                        continue
+                    dv = p.origin_op(tt["discr"], i)
+                    if isinstance(dv, tuple) and dv[0] == "discr" and T.is_call(dv[1], r"::get_mut$"):
+                        taken = [x for x, g in zip(tt["vals"], tt["tgts"]) if g == p.blocks[i + 1]]
+                        if taken == ["0"] or (not taken and "0" not in tt["vals"]):
+                            failed_lookup = dv
             if failed_lookup is not None:
                 n_failed += 1
                 lk = [x for x in ev if x[0] == "map:get_mut"]
